@@ -67,9 +67,19 @@ func clauseActive(tags []string, prop string) bool {
 		if t == prop {
 			return true
 		}
+		for _, a := range propAlso[prop] {
+			if t == a {
+				return true
+			}
+		}
 	}
 	return false
 }
+
+// propAlso: clauses tagged for these properties are also active when the key
+// property is checked (C01 composes the encoder contracts of C02 with the
+// decoder contracts of C03 and re-proves them in the same run).
+var propAlso = map[string][]string{}
 
 type knownFinding struct {
 	prop string
